@@ -988,10 +988,31 @@ func alLenStores(c *Ctx, R *bankRoles) {
 								clr = cs.Instr
 							}
 						}
-						okClr := clr != nil
-						if okClr {
-							for _, r := range returnsOf(fn) {
-								if !dominatesInstr(clr, r) {
+						clearsAlways := func(f *ssa.Function) bool {
+							var cl ssa.Instruction
+							for _, cs := range callsIn(f) {
+								if cs.Static != nil && (cs.Static.Name() == "typedmemclr" || cs.Static.Name() == "typedmemclrpartial") {
+									cl = cs.Instr
+								}
+							}
+							if cl == nil {
+								return false
+							}
+							for _, r := range returnsOf(f) {
+								if !dominatesInstr(cl, r) {
+									return false
+								}
+							}
+							return true
+						}
+						_ = clr
+						okClr := clearsAlways(fn)
+						if !okClr {
+							// the bump may sit in a small helper of the arena entry: then every function that calls it clears
+							sites := callersOf(P, fn)
+							okClr = len(sites) > 0
+							for _, site := range sites {
+								if site.Parent() == nil || !clearsAlways(site.Parent()) {
 									okClr = false
 								}
 							}
